@@ -417,6 +417,7 @@ type FuncSpec struct {
 	Ghosts     []Param
 	RawSlice   map[string]bool // local variables of an abstract list type that are modelled as concrete slices
 	SameAs     string          // interface method: the contract is that of this (verified) implementation
+	Dispatch   []string        // interface method: calls are a case split over the contracts of these (verified) implementations
 }
 
 type GhostFunc struct {
@@ -471,7 +472,7 @@ var topKeywords = map[string]bool{"sort": true, "type": true, "alias": true, "wo
 var subKeywords = map[string]bool{"ghostvar": true, "params": true, "pure": true, "def": true, "defsmt": true, "inline": true, "opaque": true, "trusted": true,
 	"fresh": true, "requires": true, "ensures": true, "modifies": true, "let": true, "loop": true, "use": true, "unfold": true,
 	"induction": true, "call": true, "allow": true, "unreachable": true, "reads": true, "nopanic": true, "maypanic": true, "out": true, "as": true,
-	"rawslice": true, "sameas": true}
+	"rawslice": true, "sameas": true, "dispatch": true}
 
 // extractSpecText returns the contract text of a file: everything inside /*@ ... @*/ blocks,
 // or the whole file when there is no such block (lib spec files).
@@ -739,6 +740,15 @@ func ParseSpecFile(path, src, pkgPath string) (*SpecFile, error) {
 				return nil, errf(c, "sameas outside func")
 			}
 			curF.SameAs = qualifyFuncKey(strings.TrimSpace(c.rest), pkgPath)
+		case "dispatch":
+			if curF == nil {
+				return nil, errf(c, "dispatch outside func")
+			}
+			for _, p := range strings.Split(c.rest, ",") {
+				if n := strings.TrimSpace(p); n != "" {
+					curF.Dispatch = append(curF.Dispatch, qualifyFuncKey(n, pkgPath))
+				}
+			}
 		case "opaque":
 			if curF == nil {
 				return nil, errf(c, "opaque outside func")
